@@ -147,6 +147,17 @@ def fun(op, a):
             return abs(a)
         if op == "fsqrt":
             return math.sqrt(a) if a >= 0 else float("nan")
+        if op in ("fround", "ffloor", "fceil", "ftrunc"):
+            if a != a or math.isinf(a):
+                return a
+            if op == "ffloor":
+                return float(math.floor(a))
+            if op == "fceil":
+                return float(math.ceil(a))
+            if op == "ftrunc":
+                return float(math.trunc(a))
+            # round half away from zero
+            return float(math.floor(abs(a) + 0.5)) * (1.0 if a >= 0 else -1.0) if abs(a) < 2 ** 52 else a
     if op == "fneg" and is_t(a) and a.op == "fneg":
         return a.args[0]
     return mk(op, (a,), "F")
@@ -403,6 +414,20 @@ class Render:
                 self.defs.append(self.decls.pop(nm))
                 return nm
             return "(fp.sqrt RNE %s)" % x
+        if op in ("fround", "ffloor", "fceil", "ftrunc"):
+            x = self.r(a[0])
+            if R:
+                fl = "(to_real (to_int %s))" % x               # floor
+                if op == "ffloor":
+                    return fl
+                if op == "fceil":
+                    return "(- (to_real (to_int (- %s))))" % x
+                if op == "ftrunc":
+                    return "(ite (>= %s 0.0) %s (- (to_real (to_int (- %s)))))" % (x, fl, x)
+                # round half away from zero: sign(x) * floor(|x| + 1/2)
+                return "(ite (>= %s 0.0) (to_real (to_int (+ %s 0.5))) (- (to_real (to_int (+ (- %s) 0.5)))))" % (x, x, x)
+            mode = {"fround": "RNA", "ffloor": "RTN", "fceil": "RTP", "ftrunc": "RTZ"}[op]
+            return "(fp.roundToIntegral %s %s)" % (mode, x)
         if op in ("fmin", "fmax"):
             x, y = self.r(a[0]), self.r(a[1])
             if R:
@@ -485,7 +510,7 @@ def evaluate(t, env, funcs=None):
             v = env[a[0]]
         elif op in ("fadd", "fsub", "fmul", "fdiv", "frem", "fmin", "fmax"):
             v = fbin(op, ev(a[0]), ev(a[1]))
-        elif op in ("fneg", "fabs", "fsqrt"):
+        elif op in ("fneg", "fabs", "fsqrt", "fround", "ffloor", "fceil", "ftrunc"):
             v = fun(op, ev(a[0]))
         elif op in ("flt", "fle", "feq"):
             v = fcmp(op, ev(a[0]), ev(a[1]))
